@@ -72,7 +72,7 @@ def run(prop, tier, ev, module, jobs, *, nproc=14, native_replay=None, describe=
             return C.EXIT_INCONCLUSIVE
         ev.cov["engines"].append("mirse (MIR symbolic executor, z3 %s)" % DP._z3ver())
         for j in jobs:
-            j["module"] = module
+            j.setdefault("module", module)
         t0 = time.time()
         with mp.Pool(nproc, initializer=_init, initargs=(mir, src_root)) as pool:
             results = pool.map(_run_job, jobs, chunksize=1)
